@@ -98,10 +98,6 @@ Definition chk_gro (p : nat) (it : items) : bool :=
 Definition chk_gro_box (uv9 : list dy) (l : string) : bool := String.eqb (st (gro_box_line uv9)) l.
 
 (* pdb: columns 31-54 of ATOM records *)
-Definition f83_kept (x : dy) : nat := (pdb_p - Nat.min pdb_p (length (py_fmt pdb_w pdb_p x) - f83_cut))%nat.
-Definition f83_num (x : dy) : num :=
-  (dneg x, quant pdb_p x / 10 ^ Z.of_nat (pdb_p - f83_kept x), f83_kept x).
-
 Definition chk_pdb (it : items) : bool :=
   forallb (fun i => opt_eqb String.eqb (option_map st (pdb_atom_cols (ang (fst i)))) (Some (snd i)) &&
                     opt_eqb nums_eqb (pdb_read_cols (la (snd i))) (Some (map f83_num (ang (fst i))))) it.
